@@ -42,6 +42,31 @@ Theorem C13_wrong_counts_no_panic : forall (B : Backend) pk gens pf es e_primes 
 Proof. exact check_proof_wrong_counts. Qed.
 Print Assumptions C13_wrong_counts_no_panic.
 
+(* memory in proportion to the input, the model-level half: whatever a reader returns is BACKED by the bytes it consumed
+   (size = bytes of every big integer + 4 per vector item and per length prefix), for every wire type and every byte
+   string; an item count is accepted only if the announced items are backed by input (at least minsz bytes each) and an
+   unbacked count is refused before any item is read. What the allocator does on top (borsh's cautious 4096-byte
+   pre-allocation, Vec growth) is measured by the harness' counting allocator on every run, not proved. *)
+From Strand Require Import Proofs.SizeP.
+Theorem C13_decoded_data_is_backed_by_input : forall K fl P,
+  BK bsz (rd_E K fl P) /\ BK bsz (rd_X fl P) /\ BK (sz_ct K fl P) (rd_ct K fl P) /\ BK bsz (rd_pk K fl P) /\
+  BK sz_sk (rd_sk K fl P) /\ BK (sz_schnorr K fl P) (rd_schnorr K fl P) /\ BK (sz_cp K fl P) (rd_cp K fl P) /\
+  BK (sz_vec bsz) (rd_vecE K fl P) /\ BK (sz_vec bsz) (rd_vecX fl P) /\ BK (sz_vec (sz_ct K fl P)) (rd_vecC K fl P) /\
+  BK (sz_vec (sz_cp K fl P)) (rd_vecCP K fl P) /\ BK sz_proof (rd_proof K fl P).
+Proof. exact decoded_data_is_backed_by_input. Qed.
+Print Assumptions C13_decoded_data_is_backed_by_input.
+
+Theorem C13_strict_decode_no_larger_than_input : forall {A} (sz : A -> nat) (rd : reader A), BK sz rd ->
+  forall bs v, bytes_ok bs -> strict rd bs = Ok v -> (sz v <= length bs)%nat.
+Proof. exact @strict_decode_no_larger_than_input. Qed.
+Print Assumptions C13_strict_decode_no_larger_than_input.
+
+Theorem C13_item_counts_are_backed : forall {A} minsz (rd : reader A),
+  (forall bs l r, rd_vec minsz rd bs = Ok (l, r) -> (4 + length l * minsz <= length bs)%nat) /\
+  (forall a r, length a = 4%nat -> Z.of_nat (length r) < le_int a * Z.of_nat minsz -> rd_vec minsz rd (a ++ r) = Err).
+Proof. intros A minsz rd. split; [exact (rd_vec_count_backed minsz rd)|exact (rd_vec_unbacked_refused minsz rd)]. Qed.
+Print Assumptions C13_item_counts_are_backed.
+
 (* the third backend: every ristretto wire reader (32-byte points and scalars, 30-byte plaintexts, ciphertexts, keys,
    Schnorr / Chaum-Pedersen proofs, the vector wrappers and the shuffle proof) is total on EVERY byte string *)
 Theorem C13_ristretto_decoders_never_panic : forall K PM,
